@@ -42,7 +42,7 @@ from io import StringIO
 import six
 from six import integer_types, text_type
 
-from decimal import Decimal
+from decimal import Decimal, InvalidOperation
 
 from warnings import warn
 
@@ -860,7 +860,7 @@ class parser(object):
             res.month = month
             res.day = day
 
-        except (IndexError, ValueError):
+        except (IndexError, ValueError, InvalidOperation):
             return None, None
 
         if not info.validate(res):
